@@ -490,6 +490,10 @@ def run(tier, seed, replay=None):
     import archive_util as au  # pylint: disable=import-outside-toplevel
 
     au.staging_collision(chk, "C08")     # D23: restore vs. a package named like its staging directory
+    import c13 as _c13  # pylint: disable=import-outside-toplevel
+
+    _c13.recorded_versions_are_not_explored(chk)   # gc never reaches into a recorded version
+    au.equal_timestamps_across_tasks(chk, "C08")   # gc / archive / restore keep versions of different tasks that share a timestamp
     import c06  # pylint: disable=import-outside-toplevel
 
     c06.background_writer(chk, "C08")    # nothing is written into a version's directory once its row is visible
